@@ -651,8 +651,8 @@ package trie
 //@   requires forall i int :: 0 <= i && i < len(keys) ==> keys[i] != nil
 //@   modifies *
 //@   assigns pathVal, hasRight, rebuiltRoot
-//@   loop 1: invariant checked_so_far: len(keys) == len(values) && (forall j int :: 0 <= j && j <= rangeindex ==> values[j] != nil && *values[j] != felt.Zero && (j < len(keys) - 1 ==> feltCmp(*keys[j], *keys[j+1]) <= 0))
-//@   ensures data_checked: result1 == nil ==> len(keys) == len(values) && (forall j int :: 0 <= j && j < len(values) ==> values[j] != nil && *values[j] != felt.Zero) && (forall j int :: 0 <= j && j < len(keys) - 1 ==> feltCmp(*keys[j], *keys[j+1]) <= 0)
+//@   loop 1: invariant checked_so_far: len(keys) == len(values) && (forall j int :: 0 <= j && j <= rangeindex ==> values[j] != nil && *values[j] != felt.Zero && (j < len(keys) - 1 ==> feltCmp(*keys[j], *keys[j+1]) < 0))
+//@   ensures data_checked: result1 == nil ==> len(keys) == len(values) && (forall j int :: 0 <= j && j < len(values) ==> values[j] != nil && *values[j] != felt.Zero) && (forall j int :: 0 <= j && j < len(keys) - 1 ==> feltCmp(*keys[j], *keys[j+1]) < 0)
 //@   ensures whole_trie_root_recomputed: result1 == nil && proof == nil ==> rebuiltRoot == *root && !result0
 //@   ensures empty_range_shows_nothing: result1 == nil && proof != nil && len(keys) == 0 ==> pathVal == nil && !hasRight && !result0
 //@   ensures single_element_value_proved: result1 == nil && proof != nil && len(keys) == 1 ==> rebuiltRoot == *root || (pathVal != nil && *values[0] == *pathVal && result0 == hasRight)
